@@ -173,6 +173,12 @@ def run(ctx):
                     # kept, reduced to one member, dropped when that leaves it empty
                     good = b is None and len(muts) == 1 and muts[0][0].endswith("::retain") and retain_only(dex, w, muts[0], sub_want[key]) \
                         and is_not_empty_of(unwrap_ok(p.ret), muts[0][1][0])
+                    if good:
+                        # the emptiness test looks at the map AFTER the reduction (tested before it, a non-empty object without the member is kept as `{}`
+                        # by the first redaction and dropped by the second: redaction is not idempotent and a signed redacted copy stops verifying)
+                        names = [e[0].rsplit("::", 1)[-1] for e in p.effects]
+                        if "is_empty" in names and "retain" in names and max(i for i, n_ in enumerate(names) if n_ == "is_empty") < names.index("retain"):
+                            good = False
                     ctx.check(good, "C04.content", k, w.where(cfn),
                               bad_msg=f"v{ver[1:]} {tname}.{kname}: must be kept reduced to its `{sub_want[key]}` member (dropped if empty)")
                     # the only other outcome may be the 'not an object' error
